@@ -494,6 +494,30 @@ func ExtendVoucher[T protocol.PublicKeyOrChain](v *Voucher, owner crypto.Signer,
 		return nil, fmt.Errorf("owner key for signing does not match the last signature of the voucher to be extended")
 	}
 
+	// The next owner key must be of the same type and size/curve as the
+	// manufacturer key, like every other key in the voucher; otherwise the
+	// entry would carry a key under a type label that does not describe it
+	var nextOwnerKey crypto.PublicKey
+	switch next := any(nextOwner).(type) {
+	case []*x509.Certificate:
+		if len(next) == 0 || next[0] == nil {
+			return nil, fmt.Errorf("next owner certificate chain is empty")
+		}
+		nextOwnerKey = next[0].PublicKey
+	default:
+		nextOwnerKey = next
+	}
+	switch mfgKey := ownerPubKey.(type) {
+	case *ecdsa.PublicKey:
+		if nextKey, ok := nextOwnerKey.(*ecdsa.PublicKey); !ok || nextKey == nil || nextKey.Curve != mfgKey.Curve {
+			return nil, fmt.Errorf("next owner key for voucher extension did not match the type and size/curve of the manufacturer key")
+		}
+	case *rsa.PublicKey:
+		if nextKey, ok := nextOwnerKey.(*rsa.PublicKey); !ok || nextKey == nil || nextKey.Size() != mfgKey.Size() {
+			return nil, fmt.Errorf("next owner key for voucher extension did not match the type and size/curve of the manufacturer key")
+		}
+	}
+
 	// Create the next owner PublicKey structure
 	asCOSE := v.Header.Val.ManufacturerKey.Encoding == protocol.CoseKeyEnc
 	if _, ok := any(nextOwner).([]*x509.Certificate); ok {
